@@ -210,7 +210,10 @@ func c20Chain(h int, r *core.Rng) *TNode {
 	for i := 0; i < L; i++ {
 		link := h % 10
 		h /= 10
-		cur = &TNode{T: "stack", Kind: Kinds[link%5], Paren: link >= 5, Kids: []*TNode{cur}, Mutex: r.Chance(1, 3), Neg: r.Chance(1, 4), Fwd: r.Chance(1, 4)}
+		cur = &TNode{T: "stack", Kind: Kinds[link%5], Paren: link >= 5, Kids: []*TNode{cur}, Mutex: r.Chance(1, 3), Neg: r.Chance(1, 4), Fwd: r.Chance(1, 4), Fold: r.Chance(1, 4)}
+		if cur.Kind != "LIST" && r.Chance(1, 4) {
+			cur.Sym = "!"
+		}
 	}
 	// the outermost link is the root's only element; the root adds siblings so slot arithmetic is exercised
 	root := &TNode{T: "stack", Kind: "AND", Mutex: r.Chance(1, 3), Neg: r.Chance(1, 4), Fwd: r.Chance(1, 3), Kids: []*TNode{{T: "leaf", Leaf: &LeafDesc{Tag: "str", S: "first"}}, cur, {T: "leaf", Leaf: &LeafDesc{Tag: "str", S: "last"}}}}
@@ -232,6 +235,10 @@ func c20Run(c *core.Ctx, idx int) {
 		// bias towards single-child chains and paren flags
 		tree.Walk(func(n *TNode) {
 			if n.T == "stack" {
+				n.Fold = r.Chance(1, 4)
+				if n.Kind != "LIST" && r.Chance(1, 4) {
+					n.Sym = []string{"!", "&", "~"}[r.Intn(3)]
+				}
 				n.Paren = r.Chance(1, 4)
 				if len(n.Kids) > 1 && r.Chance(1, 2) {
 					n.Kids = n.Kids[:1]
